@@ -737,14 +737,30 @@ func c20Probe(x *h.Ctx, c c20Case, b c20Boot, strict bool) {
 		x.Fatalf("jsonld engine not found or not configured")
 	}
 	rec := &c20Recorder{}
+	ldSrv := &c20CtxServer{} // records and serves a context, see zz_verif_C20_jsonld_test.go
 	savedDefault := http.DefaultTransport
-	http.DefaultTransport = rec
+	http.DefaultTransport = ldSrv
 	_, unlistedErr := ldEngine.DocumentLoader().LoadDocument(c20UnlistedCtx)
-	unlistedHits := rec.take()
+	unlistedHits := ldSrv.rec.take()
 	_, _ = ldEngine.DocumentLoader().LoadDocument(c20AllowedCtx)
-	allowedHits := rec.take()
+	allowedHits := ldSrv.rec.take()
 	_, embeddedErr := ldEngine.DocumentLoader().LoadDocument("https://nuts.nl/credentials/v1")
-	embeddedHits := rec.take()
+	embeddedHits := ldSrv.rec.take()
+	if strict {
+		// near-miss URLs derived from every entry of the allow-list this node was configured with (and of the local mapping)
+		var effective, mapped []string
+		switch c.val("allowlist") {
+		case "custom":
+			effective = []string{c20AllowedCtx, "https://schema.org"}
+		case "default":
+			effective = jsonld.DefaultAllowList()
+		}
+		for k := range jsonld.DefaultContextConfig().LocalFileMapping {
+			mapped = append(mapped, k)
+		}
+		sort.Strings(mapped)
+		c20ProbeNearMisses(x, ldEngine.DocumentLoader(), ldSrv, effective, mapped, c20DefaultNearParams, "jsonld:")
+	}
 	http.DefaultTransport = savedDefault
 	if strict {
 		if len(unlistedHits) > 0 || unlistedErr == nil {
